@@ -30,10 +30,13 @@ def base_cfg(binary, rng=None, max_joins=None, password=None, default_modes=(), 
                                                 ("registered", "r"), ("wallops", "w"))}
     # predefined users without own password or mask: whoever gives that user name is a registered (+r) user
     users = [{"name": n, "nick": n + "-nick"} for n in reg_users]
+    # accounts nobody on this host can log in to (mask on another network): attempts are refused and leave no trace
+    masked = {"mk1": "*!*@10.*", "mk2": "nobody*!*@*"} if reg_users else {}
+    users += [{"name": n, "nick": n + "-nick", "mask": m} for n, m in masked.items()]
     scfg = dict(operators=ops, channels=channels, max_joins=max_joins, default_user_modes=dm, users=users,
                 password=sut.password_hash(binary, password) if password else None)
     mcfg = M.Config(max_joins=max_joins, password=password, default_modes=default_modes,
-                    operators=mops, channels=channels, users={n: (None, None) for n in reg_users})
+                    operators=mops, channels=channels, users=dict({n: (None, None) for n in reg_users}, **{n: (None, m) for n, m in masked.items()}))
     return scfg, mcfg
 
 
